@@ -36,6 +36,16 @@ type hookScenario struct {
 	noDown []bool // per context: it has no down commands (nil: all have)
 	form   string // cli only: "" (taskctl T...), "run" (taskctl run T...), "runtask" (taskctl run task T...), "runpipeline"
 	ghost  bool   // cli only, several targets: an unknown name follows the last target
+	// nest (sched, cli; >= 2 tasks): the first half of the tasks form a pipeline of their own ("pin") which the
+	// first stage of p includes; on a command line with several targets, pin is the first target
+	nest bool
+}
+
+func (s hookScenario) nestLen() int {
+	if s.nest && len(s.tasks) >= 2 && (s.via == "sched" || s.via == "cli") {
+		return len(s.tasks) / 2
+	}
+	return 0
 }
 
 // the up commands of context c: the first one writes the token cN.up, the k-th one cN.upK
@@ -93,6 +103,9 @@ func (s hookScenario) line() string {
 	}
 	if s.noDown != nil {
 		extra += fmt.Sprintf(" nodown=%v", s.noDown)
+	}
+	if s.nestLen() > 0 {
+		extra += fmt.Sprintf(" nested-first-%d", s.nestLen())
 	}
 	if s.form != "" || s.ghost {
 		extra += fmt.Sprintf(" form=%s ghost=%v", s.form, s.ghost)
@@ -169,12 +182,33 @@ func (s hookScenario) yaml(trace string) string {
 			fmt.Fprintf(&b, "    after: [%q]\n", t.After[0])
 		}
 	}
-	b.WriteString("pipelines:\n  p:\n")
-	for i := range s.tasks {
+	h := s.nestLen()
+	b.WriteString("pipelines:\n")
+	if h > 0 {
+		b.WriteString("  pin:\n")
+		for i := 0; i < h; i++ {
+			fmt.Fprintf(&b, "    - task: t%d\n", i)
+			if !s.par && i > 0 {
+				fmt.Fprintf(&b, "      depends_on: [t%d]\n      allow_failure: true\n", i-1)
+			} else {
+				fmt.Fprintf(&b, "      allow_failure: true\n")
+			}
+		}
+	}
+	b.WriteString("  p:\n")
+	if h > 0 {
+		b.WriteString("    - pipeline: pin\n      allow_failure: true\n")
+	}
+	for i := h; i < len(s.tasks); i++ {
 		fmt.Fprintf(&b, "    - task: t%d\n", i)
-		if !s.par && i > 0 {
+		switch {
+		case i == h && h > 0:
+			// what follows the included pipeline starts after it (also when the tasks are otherwise parallel: the
+			// point is a task that uses the contexts after an included pipeline has finished)
+			fmt.Fprintf(&b, "      depends_on: [pin]\n      allow_failure: true\n")
+		case !s.par && i > 0:
 			fmt.Fprintf(&b, "      depends_on: [t%d]\n      allow_failure: true\n", i-1)
-		} else {
+		default:
 			fmt.Fprintf(&b, "      allow_failure: true\n")
 		}
 	}
@@ -205,7 +239,10 @@ func runHookScenario(s hookScenario) hookObs {
 		} else if !s.par {
 			// sequential: every task as a target of its own on one command line (stops at the first failure)
 			targets = nil
-			for i := range s.tasks {
+			if s.nestLen() > 0 {
+				targets = append(targets, "pin")
+			}
+			for i := s.nestLen(); i < len(s.tasks); i++ {
 				targets = append(targets, fmt.Sprintf("t%d", i))
 			}
 		}
@@ -217,7 +254,7 @@ func runHookScenario(s hookScenario) hookObs {
 		case "run":
 			targets = append([]string{"run"}, targets...)
 		case "runtask":
-			if targets[0] != "p" {
+			if targets[0] != "p" && targets[0] != "pin" {
 				targets = append([]string{"run", "task"}, targets...)
 			}
 		case "runpipeline":
@@ -237,6 +274,9 @@ func runHookScenario(s hookScenario) hookObs {
 		if multi {
 			stopped := false
 			for i := range s.tasks {
+				if i < s.nestLen() {
+					continue // inside the first target, a pipeline whose stages all allow failure
+				}
 				obs.executed[i] = !stopped
 				if obs.runErr[i] {
 					stopped = true
@@ -270,13 +310,30 @@ func runHookScenario(s hookScenario) hookObs {
 			}
 		}()
 		if s.via == "sched" {
-			var stages []*scheduler.Stage
+			var stages, inner, all []*scheduler.Stage
+			h := s.nestLen()
 			for i, t := range tasks {
 				st := &scheduler.Stage{Name: t.Name, Task: t, AllowFailure: true}
-				if !s.par && i > 0 {
+				switch {
+				case h > 0 && i == h:
+					st.DependsOn = []string{"pin"}
+				case !s.par && i > 0 && i != h:
 					st.DependsOn = []string{tasks[i-1].Name}
 				}
-				stages = append(stages, st)
+				all = append(all, st)
+				if i < h {
+					inner = append(inner, st)
+				} else {
+					stages = append(stages, st)
+				}
+			}
+			if h > 0 {
+				ig, err := scheduler.NewExecutionGraph(inner...)
+				if err != nil {
+					obs.crashed = err.Error()
+					return
+				}
+				stages = append([]*scheduler.Stage{{Name: "pin", Pipeline: ig, AllowFailure: true}}, stages...)
 			}
 			g, err := scheduler.NewExecutionGraph(stages...)
 			if err != nil {
@@ -286,8 +343,7 @@ func runHookScenario(s hookScenario) hookObs {
 			sd := scheduler.NewScheduler(r)
 			sd.VerifSetPause(time.Millisecond)
 			sd.Schedule(g)
-			for i, st := range stages {
-				_ = i
+			for i, st := range all {
 				obs.runErr[i] = tasks[i].Errored || st.Task.Error != nil
 			}
 			// stage status Error was reset to Done by allow_failure; use the ground truth from the definition for hooks-only errors
@@ -532,6 +588,18 @@ func genHookScenarios(tier string, rng *rand.Rand) []hookScenario {
 			}
 		}
 	}
+	// an included pipeline (or a pipeline target) followed by more work in the same contexts
+	for _, via := range []string{"sched", "cli"} {
+		for _, par := range []bool{false, true} {
+			for _, form := range []string{"", "run"} {
+				if via == "sched" && form != "" {
+					continue
+				}
+				out = append(out, hookScenario{upFail: []bool{false, false}, via: via, par: par, form: form, nest: true,
+					tasks: []hookTask{{ctx: 0, cond: 'n', before: true}, {ctx: 0, cond: 'n'}, {ctx: 1, cond: 'n'}, {ctx: 0, cond: 'n', after: true}, {ctx: 1, cond: 'n'}}})
+			}
+		}
+	}
 	n := 60
 	if tier == "thorough" {
 		n = 600
@@ -543,6 +611,7 @@ func genHookScenarios(tier string, rng *rand.Rand) []hookScenario {
 			s.form = []string{"", "run", "runtask", "runpipeline"}[rng.Intn(4)]
 			s.ghost = rng.Intn(4) == 0
 		}
+		s.nest = rng.Intn(3) == 0
 		for c := range s.upFail {
 			s.upFail[c] = rng.Intn(5) == 0
 		}
